@@ -189,7 +189,8 @@ func c17Run(s *Shard) {
 	}
 	bounds := []M{{}, {"allowedValuesRangeScaling": 1.0}, {"allowedValuesRangeScaling": 0.5}, {"allowedValuesRangeScaling": 2.0},
 		{"disallowNegativeValues": true}, {"allowedValuesRangeScaling": 0.5, "disallowNegativeValues": true}, {"allowedValuesRangeScaling": 2.0, "disallowNegativeValues": true},
-		{"allowedValuesRangeScaling": -2.0}, {"allowedValuesRangeScaling": -0.5, "disallowNegativeValues": true}} // any negative factor means "no limits"
+		{"allowedValuesRangeScaling": -2.0}, {"allowedValuesRangeScaling": -0.5, "disallowNegativeValues": true}, // any negative factor means "no limits"
+		{"allowedValuesRangeScaling": 1.0, "disallowNegativeValues": true}} // exactly the criterion's own range, and nothing below zero
 	us := []float64{0, 0.25, 0.5, 0.75, 1 - 1.0/(1<<53)}
 	prefixes := [][]M{nil}
 	for _, b := range biasAlphabet(0) {
@@ -199,8 +200,13 @@ func c17Run(s *Shard) {
 	sampled := false
 	for _, method := range allMethods {
 		for _, subset := range []bool{false, true} {
-			for _, variant := range []int{0, 1, 2, 3, 4, 5, 6} { // 0 observed range, 1 declared range, 2 negative values, 3 one criterion with a single value, 4 never-considered alternatives beyond both ends, 5 values with many decimals / at the 1e-9 scale
-				root := rootRequest(method, subset, variant == 1)
+			for _, variant := range []int{0, 1, 2, 3, 4, 5, 6, 7} { // 7 declared ranges reaching below zero; 0 observed range, 1 declared range, 2 negative values, 3 one criterion with a single value, 4 never-considered alternatives beyond both ends, 5 values with many decimals / at the 1e-9 scale
+				root := rootRequest(method, subset, variant == 1 || variant == 7)
+				if variant == 7 {
+					for _, cr := range asL(root["criteria"]) {
+						asM(cr)["valuesRange"] = M{"min": -10.0, "max": 10.0}
+					}
+				}
 				if variant == 2 {
 					root = negativeVariant(root) // c1 strictly negative for every known alternative
 					for _, a := range asL(root["knownAlternatives"]) {
